@@ -37,7 +37,7 @@ PROPS = {
     ),
     "C09": dict(
         level="exploration",
-        modules=["specs.rbcommon", "specs.formatter", "specs.deployrule"],
+        modules=["specs.rbcommon", "specs.formatter", "specs.deployrule", "specs.cmdparams"],
         bounded=[("bounded.c09", "run")],
         assumes=["A1", "A6", "A8", "A9", "A13"],
         trusted=["CommonFormatter.patch (the text shown), cmd_paths (what is sent), _blocks, _indent_blocks and _filtered_block_marks are "
